@@ -491,6 +491,9 @@ size_t rtosc_print_arg_val(const rtosc_arg_val_t *arg,
                     int prec = opt->floating_point_precision;
                     assert(prec>=0);
                     assert(prec<100);
+                    // the fraction needs its decimal point: at least ".0"
+                    if(prec < 1)
+                        prec = 1;
 
                     // convert fractions -> float
                     float flt = rtosc_secfracs2float(secfracs);
